@@ -30,6 +30,7 @@ class Func:
         self.locals = {}
         self.blocks = {}
         self.lines = text_lines
+        self.srclines = {}       # block -> [source line of each statement or None] (dumps made with -Zmir-include-spans)
 
 
 def split_top(s, sep=","):
@@ -93,6 +94,12 @@ def parse_mir(path):
                 cur = None
                 continue
             s = line.strip()
+            srcline = None
+            cm = re.search(r"\s*// (?:in )?scope \d+ at (?:no-location|(\S+?):(\d+):\d+: \d+:\d+)(?: \(#\d+\))?$", s)
+            if cm:
+                if cm.group(1):
+                    srcline = (cm.group(1), int(cm.group(2)))
+                s = s[:cm.start()].rstrip()
             m = re.match(r"^let (mut )?(_\d+): (.*);$", s)
             if m:
                 cur.locals[m.group(2)] = m.group(3)
@@ -101,12 +108,14 @@ def parse_mir(path):
             if m:
                 block = m.group(1)
                 cur.blocks[block] = []
+                cur.srclines[block] = []
                 continue
             if s == "}":
                 block = None
                 continue
             if block is not None and s and not s.startswith("//"):
                 cur.blocks[block].append(s)
+                cur.srclines[block].append(srcline)
     return funcs
 
 
@@ -289,6 +298,7 @@ class Executor:
         self.inputs = {}     # place key -> var name (first read of untouched input state)
         self.counter = itertools.count()
         self.max_paths = max_paths
+        self.slice_end = None
         self.paths = []
 
     # ---- variables
@@ -989,17 +999,34 @@ class Executor:
         return None
 
     # ---- execution
-    def run(self, fname_regex):
+    def run(self, fname_regex, start_line=None, end_line=None):
+        """start_line / end_line = (source file suffix, line): execute only the slice of the function that begins at the
+        first statement coming from that source line, from an ARBITRARY state (every local and all memory unconstrained),
+        and ends at return, at a stop_at callee or right before the first statement of end_line"""
         matches = [f for n, f in self.funcs.items() if re.search(fname_regex, n)]
         if len(matches) != 1:
             raise Untranslatable("function pattern %r matches %d functions" % (fname_regex, len(matches)))
         fn = matches[0]
         st = State()
         self.paths = []
-        self.exec_block(st, fn, "bb0", "", [])
+        self.slice_end = end_line
+        bb, first = "bb0", 0
+        if start_line is not None:
+            hit = None
+            for b in sorted(fn.blocks, key=lambda x: int(x[2:])):
+                for i, sl in enumerate(fn.srclines.get(b, [])):
+                    if sl and sl[0].endswith(start_line[0]) and sl[1] == start_line[1]:
+                        hit = (b, i)
+                        break
+                if hit:
+                    break
+            if hit is None:
+                raise Untranslatable("no MIR statement for source line %s:%d in %s" % (start_line[0], start_line[1], fn.name))
+            bb, first = hit
+        self.exec_block(st, fn, bb, "", [], first)
         return fn, self.paths
 
-    def exec_block(self, st, fn, bb, frame, stack):
+    def exec_block(self, st, fn, bb, frame, stack, first=0):
         while True:
             tag = frame + bb
             if tag in st.visited:
@@ -1011,8 +1038,20 @@ class Executor:
             if stmts is None:
                 raise Untranslatable("missing block " + bb)
             try:
-                for s in stmts[:-1]:
+                sl = fn.srclines.get(bb) or []
+                end = getattr(self, "slice_end", None)
+                for k, s in enumerate(stmts[:-1]):
+                    if k < first:
+                        continue
+                    if end and frame == "" and k < len(sl) and sl[k] and sl[k][0].endswith(end[0]) and sl[k][1] == end[1]:
+                        self.paths.append(Path(st, "stop", "end of slice", fn))
+                        return
                     self.exec_stmt(st, fn, s, frame)
+                first = 0
+                k = len(stmts) - 1
+                if end and frame == "" and k < len(sl) and sl[k] and sl[k][0].endswith(end[0]) and sl[k][1] == end[1]:
+                    self.paths.append(Path(st, "stop", "end of slice", fn))
+                    return
             except Untranslatable as e:
                 # the path must be shown infeasible by the query, otherwise the query is skipped
                 self.paths.append(Path(st, "untranslatable", str(e), fn))
